@@ -31,6 +31,8 @@ QUERY_TOKENS = [
 ]
 SEED_QUERIES = U.EXTENSION_QUERIES + U.COMPOUND_QUERIES + [
     "$[?@.a == 1e400]", "$[1e2]", "$[?@ =~ /(/]", "$[?1 in @]", "$[?@ in $[0]]", "$[?count(@) == 1]", "$[?length(@.a) > 1e2]", "$[?@.a == 1.5e400]",
+    "$[?isinstance(@.a, 'number')]", "$[?is(@.a, @.b)]", "$[?isinstance(@, @)]", "$[?is(@.a, $[4])]", "$[?typeof(@.a) == 'string']", "$[?typeof(@) == @.a]", "$[?isinstance(@.b, 'array')]",
+    "$[?match(@.a, 'a{99999999999}')]", "$[?search(@.a, 'a{2,1}')]", "$[?match(@.a, '(?P<n>a)(?P<n>b)')]",
     "$[?match(@.a, '(')]", "$[?search(@, '[')]", "$[?@ =~ /[/]", "$[?typeof(@) == 1]", "$[?@.a == -1e-400]", "$['\\ud800']", "$['\\u12']", "$[?@ == '\\x']",
 ]
 POINTER_TOKENS = ["/", "~", "~0", "~1", "~2", "#", "#0", "#x", "-", "0", "1", "01", "+1", "a", "\\", "\\u0041", "\\ud800", "\\ud83d\\ude00", "\\x", "%41", "%", "%zz", " ", "é", "9" * 30]
